@@ -165,4 +165,23 @@ CLAIMS.update({
                   "correspondence against the real Open(Recover)"),
 })
 
+CLAIMS.update({
+    'C18': dict(
+        text="Proved in Lean over an interleaving semantics of notify.Offset whose three instruction lists are regenerated from the current "
+             "pkg/notify/notify.go by a go/ast translator (obligation notify_prog_eq, by decide), for every schedule of any number of Wait / Set "
+             "/ Close calls and cancellations, with no bound on threads or steps: a Wait below the notifier's offset returns nil in its first "
+             "step without touching shared state; a parked waiter stays parked under every event except close(b) of a Set/Close holding its "
+             "channel and its own cancellation (stays_parked, woken_only_by_set_close); no lost wake-up: a waiter past its probe whose offset "
+             "has been passed has its channel closed or a setter in flight that closes it within three of its own steps and is never blocked "
+             "(parked_not_passed, setter_closes, no_lost_wakeup); a cancelled parked waiter returns ctx.Err(); Wait after Close at or beyond "
+             "the offset fails; no schedule panics (double close, send on closed) or deadlocks; the offset is monotone. The wrapper's "
+             "composition (Wait(ctx, offset) then exactly Consume/ConsumeByKey with the caller's arguments; Publish then Set(returned offset); "
+             "Close closes the notifier first; notifier starts at NextOffset) is a set of regenerated go/ast facts (obligation source_facts), so "
+             "'the result is what Consume returns at that moment' reduces to C03/C09. Correspondence: (a) the real notify.Offset driven "
+             "instruction by instruction through verif pause points against the model under the same schedule; (b) the real BlockingLog with "
+             "up to 8 waiters, observed at quiescence, against the model and the L0 rules.",
+        note=COMMON_NOTE + "Go channel semantics are the parameters of the interleaving model (trusted). Fairness (an enabled goroutine eventually "
+             "runs) is the Go scheduler's; the theorems state enabledness, not eventual scheduling."),
+})
+
 NOT_APPLICABLE = []
